@@ -6,6 +6,14 @@ from core import Corr, Violation, run_driver
 from extract import pyexpr
 
 ID = "C17"
+#: functions the hand-written model transcribes: their control skeleton (extract/shape.py) is regenerated into
+#: Gen/C17.lean and compared with the literal in Properties/C17.lean (`modelled_functions_have_the_transcribed_shape`)
+SHAPES = [
+    ("shapeFit", "mlinsights/mlmodel/interval_regressor.py", "IntervalRegressor.fit"),
+    ("shapePredictAll", "mlinsights/mlmodel/interval_regressor.py", "IntervalRegressor.predict_all"),
+    ("shapePredict", "mlinsights/mlmodel/interval_regressor.py", "IntervalRegressor.predict"),
+    ("shapePredictSorted", "mlinsights/mlmodel/interval_regressor.py", "IntervalRegressor.predict_sorted"),
+]
 SRC = "mlinsights/mlmodel/interval_regressor.py"
 LEAN_TARGETS = ["MlVerif.Gen.C17", "MlVerif.Model.Interval", "MlVerif.Properties.C17"]
 PROPERTY_FILE = "MlVerif/Properties/C17.lean"
@@ -133,6 +141,8 @@ def make_data(n, d=2, weights=True):
     X = numpy.array([[i] + [10 * i + j for j in range(1, d)] for i in range(n)], dtype=float).reshape(n, d)
     y = numpy.array([100 + i for i in range(n)], dtype=float)
     w = numpy.array([1000 + i for i in range(n)], dtype=float) if weights else None
+    if weights == "zeros":       # "all sample weights": rows of weight 0 are rows of the training set like the others
+        w[::2] = 0.0
     return X, y, w
 
 
@@ -277,6 +287,18 @@ def _one_config(n, alpha, ne, weights, seed, d=2):
             bad.append(("predict-mean-dtype", "predict is not the mean of the individual predictions for a %s query batch"
                         % dt.__name__, pm.tolist(), ind_d.mean(axis=1).tolist()))
             break
+    # history on ONE query array modified in place between two calls ("all query batches": the answer is a function
+    # of the batch's content, whatever object holds it and whatever was asked before)
+    Xm = Xq.copy()
+    for step in range(3):
+        for meth in ("predict_all", "predict", "predict_sorted"):
+            got = getattr(model, meth)(Xm)
+            indm = numpy.array([e.predict(Xm) for e in model.estimators_]).T
+            want = {"predict_all": indm, "predict": indm.mean(axis=1), "predict_sorted": numpy.sort(indm, axis=1)}[meth]
+            if got.shape != want.shape or not numpy.allclose(got, want, rtol=1e-12, atol=1e-12):
+                bad.append(("same-array-new-content:" + meth, "%s on a query array modified in place since the last call "
+                            "does not describe its current content" % meth, numpy.asarray(got).tolist(), want.tolist()))
+        Xm += 1.0
     # history: the hyper-parameter n_estimators is changed after fit (no refit): the fitted models still decide
     model.set_params(n_estimators=ne + 3)
     pm = model.predict(Xq)
@@ -329,7 +351,7 @@ def search(ctx, hints):
     # (a) every row eligible: tiny training sets, many draws.  With T total draws the chance that a
     #     fixed row of n is never drawn is ((n-1)/n)^T <= (5/6)^400 < 1e-31: no false alarm.
     for n in range(1, 7):
-        for weights in (False, True):
+        for weights in (False, True, "zeros"):
             alpha = 1.0
             ne = max(2, (400 + n - 1) // n)
             bad, drawn = _one_config(n, alpha, ne, weights, rng.randrange(1 << 30))
@@ -354,7 +376,7 @@ def search(ctx, hints):
         n = rng.randint(1, 40)
         alpha = rng.choice([0.25, 0.5, 0.75, 1.0, 1.0, 1.5, 2.0, 0.3, 0.9])
         ne = rng.randint(1, 6)
-        weights = rng.random() < 0.5
+        weights = rng.choice([False, True, "zeros"])
         bad, _ = _one_config(n, alpha, ne, weights, rng.randrange(1 << 30), d=rng.choice([1, 2, 3]))
         evals += 1
         nontriv.add((n, alpha, ne, weights))
